@@ -210,13 +210,6 @@ static void ratom_read(struct ratom *ra, char **pat)
 	}
 }
 
-static char *uc_beg(char *beg, char *s)
-{
-	while (s > beg && (((unsigned char) *s) & 0xc0) == 0x80)
-		s--;
-	return s;
-}
-
 static int isword(char *s)
 {
 	int c = (unsigned char) s[0];
@@ -324,12 +317,12 @@ static int ratom_match(struct ratom *ra, struct rstate *rs)
 		return !!(rs->flg & REG_NOTEOL);
 	if (ra->ra == RA_END && rs->s[0] == '\n')
 		return !(rs->flg & REG_NEWLINE);
-	if (ra->ra == RA_WBEG)
-		return !((rs->s == rs->o || !isword(uc_beg(rs->o, rs->s - 1))) &&
-			isword(rs->s));
-	if (ra->ra == RA_WEND)
-		return !(rs->s != rs->o && isword(uc_beg(rs->o, rs->s - 1)) &&
-			(!rs->s[0] || !isword(rs->s)));
+	if (ra->ra == RA_WBEG || ra->ra == RA_WEND) {
+		int prev = rs->s != rs->o || rs->flg & REG_CONT;	/* something before this place */
+		if (ra->ra == RA_WBEG)
+			return !((!prev || !isword(rs->s - 1)) && isword(rs->s));
+		return !(prev && isword(rs->s - 1) && (!rs->s[0] || !isword(rs->s)));
+	}
 	return 1;
 }
 
